@@ -52,7 +52,7 @@ BUDGET = {"quick": (400, 12), "thorough": (40_000, 200)}
 WORKERS = {"quick": 6, "thorough": 16}
 REQUIRED = ["shell_exec", "shell_model", "argv_semantics", "raw_parse_back", "channel.file", "channel.func", "text_channels"]
 RULE = (
-    "case = request built from (method, scheme, host, port, path+query, Host header relation, 0-5 headers, body kind, content-encoding, "
+    "case = request built from (method, scheme, host, default/non-default port, path+query, Host header in {absent, host, host:port, host:otherport, otherhost, otherhost:port}, 0-5 headers, body kind, content-encoding, "
     "http version, preserve-original-ip option) with shell metacharacters, quotes, control characters, %, backslashes, leading -/@, "
     "non-ASCII and raw non-UTF-8 bytes (header values, request target, binary bodies); each case: every export through all four public channels (functions, export, export.file, export.clip), all three exports through the quoting model and the raw export through "
     "the HTTP/1 reference, one export (rotating curl/bash, curl/dash, httpie/bash) executed by a real shell; distinct = distinct "
@@ -160,7 +160,19 @@ def gen_spec(r):
     default = 80 if sp["scheme"] == "http" else 443
     sp["netloc"] = sp["host"] if sp["port"] == default else f"{sp['host']}:{sp['port']}"
     z = r.random()
-    sp["host_header"] = None if z < 0.3 else sp["netloc"]
+    other_port = r.choice([p_ for p_ in (80, 443, 8080, 8443, 9999) if p_ != sp["port"]])
+    if z < 0.22:
+        sp["host_header"], sp["hh_form"] = None, "absent"
+    elif z < 0.47:
+        sp["host_header"], sp["hh_form"] = sp["host"], "host"  # port-less, equal to request.host
+    elif z < 0.72:
+        sp["host_header"], sp["hh_form"] = f"{sp['host']}:{sp['port']}", "host:port"
+    elif z < 0.82:
+        sp["host_header"], sp["hh_form"] = f"{sp['host']}:{other_port}", "host:otherport"
+    elif z < 0.92:
+        sp["host_header"], sp["hh_form"] = "other.example.net", "otherhost"
+    else:
+        sp["host_header"], sp["hh_form"] = f"other.example.net:{sp['port']}", "otherhost:port"
     sp["authority"] = sp["netloc"] if r.random() < 0.3 else ""
     hdrs = []
     for _ in range(r.randint(0, 5)):
@@ -212,6 +224,7 @@ def gen_spec(r):
     sp["version"] = r.choice(["HTTP/1.1", "HTTP/1.1", "HTTP/1.1", "HTTP/1.0", "HTTP/2.0"])
     if sp["version"] == "HTTP/2.0":
         sp["authority"] = sp["netloc"]
+        sp["host_header"], sp["hh_form"] = None, "absent"  # HTTP/2: :authority instead of Host
     sp["headers"] = hdrs
     sp["preserve_ip"] = r.random() < 0.3
     sp["peer"] = r.choice([None, ("10.9.8.7", 443), ("10.0.0.1", 80), ("2001:db8::1", 443)])
@@ -232,7 +245,7 @@ def gen_tame_spec(r):
         default = 80 if sp["scheme"] == "http" else 443
         sp["netloc"] = sp["host"] if sp["port"] == default else f"{sp['host']}:{sp['port']}"
         if sp["host_header"] is not None:
-            sp["host_header"] = sp["netloc"]
+            sp["host_header"], sp["hh_form"] = sp["netloc"], "host:port" if ":" in sp["netloc"] else "host"
         if sp["authority"]:
             sp["authority"] = sp["netloc"]
     hdrs = []
@@ -459,14 +472,54 @@ def classify_diag(sp, text):
     return None
 
 
+def split_hostport(h):
+    m = re.match(r"^(.*):([0-9]+)$", h, re.S)
+    return (m.group(1), int(m.group(2))) if m else (h, None)
+
+
+def default_port(sp):
+    return 80 if sp["scheme"] == "http" else 443
+
+
+def acceptable_urls(sp):
+    """URLs that address the request's scheme, port and path.  The host may be request.host or the Host header's host name
+    (mitmproxy deliberately puts the Host header's name into the URL for SNI/virtual hosting and pins the address with
+    --resolve); the port must be the port the request was sent to."""
+    hosts = [sp["host"]]
+    if sp["host_header"] is not None:
+        hosts.append(split_hostport(sp["host_header"])[0])
+    port = "" if sp["port"] == default_port(sp) else f":{sp['port']}"
+    return [f"{sp['scheme']}://{h}{port}{sp['path']}" for h in hosts]
+
+
+def same_host_header(sp, want, got):
+    """Host header values agree: same name; ports equal, or one side leaves out the port the request is sent to."""
+    wn, wp = split_hostport(strip_ows(want))
+    gn, gp = split_hostport(strip_ows(got))
+    if wn != gn:
+        return False
+    if wp == gp:
+        return True
+    return (wp is None and gp == sp["port"]) or (gp is None and wp == sp["port"])
+
+
 def classify_url(sp):
-    """The URL argument differs from scheme://netloc/path: explain from the Host header."""
+    """The URL argument does not address scheme://host:port/path: explain from the Host header."""
     hh = sp["host_header"]
     if hh is None and sp["version"] == "HTTP/2.0" and sp["authority"]:
         hh = sp["authority"]  # Request.host_header falls back to :authority for HTTP/2
-    if hh is not None and ":" in hh and not re.match(r"^[A-Za-z0-9._-]+:[0-9]+$", hh):
+    if hh is None:
+        return None
+    if ":" in hh and not re.match(r"^[A-Za-z0-9._-]+:[0-9]+$", hh):
         # parse_authority(check=False) hands back the whole "host:port" string as the host; url.unparse then brackets it like IPv6
         return "host-header-not-a-valid-hostname-with-port-breaks-url"
+    name, port = split_hostport(hh)
+    if hh == sp["host"]:
+        return None  # that header is popped as redundant; request.url (with the real port) must be used
+    if port is None and sp["port"] != default_port(sp):
+        return "host-header-without-port-drops-nondefault-request-port"
+    if port is not None and port != sp["port"]:
+        return "host-header-port-replaces-request-port"
     return None
 
 
@@ -495,11 +548,11 @@ def compare_curl(ctx, sp, exp, argv, body_known, shell, what):
         mech = "curl-get-with-body-becomes-post" if exp["method"].upper() == "GET" and sp["body"] and m["method_opt"] is None else None
         viol.append(("curl-method-differs", mech, {"expected": exp["method"], "got": m["method"]}))
     # ---- url
-    if len(m["urls"]) != 1 or m["urls"][0] != exp["url"]:
-        viol.append(("curl-url-differs", classify_url(sp), {"expected": exp["url"], "got": m["urls"]}))
+    if len(m["urls"]) != 1 or m["urls"][0] not in acceptable_urls(sp):
+        viol.append(("curl-url-differs", classify_url(sp), {"expected": acceptable_urls(sp), "got": m["urls"], "host_header": sp["host_header"], "request_port": sp["port"]}))
     else:
         for eff in sorted(RC.url_effects(m["urls"][0], m["globoff"], m["path_as_is"])):
-            viol.append(("curl-url-processing", "curl-url-" + eff, {"url": exp["url"], "effect": eff}))
+            viol.append(("curl-url-processing", "curl-url-" + eff, {"url": m["urls"][0], "effect": eff}))
     # ---- headers
     want = []
     n_ae = 0
@@ -522,7 +575,7 @@ def compare_curl(ctx, sp, exp, argv, body_known, shell, what):
         mm = re.match(r"^[a-z]+://([^/?#]*)", m["urls"][0])
         got_host = mm.group(1) if mm else None
     eff_host = host_hdr if host_hdr is not None else sp["netloc"]
-    if got_host is not None and strip_ows(got_host) != eff_host:
+    if got_host is not None and not same_host_header(sp, eff_host, got_host):
         viol.append(("curl-host-differs", classify_url(sp), {"expected": eff_host, "got": got_host}))
     if bool(n_ae) != bool(m["compressed"]):
         viol.append(("curl-accept-encoding-differs", None, {"expected": n_ae, "got": m["compressed"]}))
@@ -545,8 +598,9 @@ def compare_curl(ctx, sp, exp, argv, body_known, shell, what):
             viol.append(("curl-headers-differ", mech, {"missing": lst[:4], "extra": extra[:4] if mech is None else [], "removed": sorted(removed)[:4]}))
     # ---- resolve
     want_res = []
-    if sp["preserve_ip"] and sp["peer"] and sp["host"] != sp["peer"][0]:
-        want_res = [f"{sp['host']}:{sp['port']}:[{sp['peer'][0]}]"]
+    url_host = split_hostport(sp["host_header"])[0] if sp["host_header"] is not None else sp["host"]
+    if sp["preserve_ip"] and sp["peer"] and url_host != sp["peer"][0]:
+        want_res = [f"{url_host}:{sp['port']}:[{sp['peer'][0]}]"]
     if m["resolve"] != want_res:
         viol.append(("curl-resolve-differs", classify_url(sp), {"expected": want_res, "got": m["resolve"]}))
     # ---- body
@@ -577,22 +631,24 @@ def compare_httpie(ctx, sp, exp, argv, shell, what):
         viol.append(("httpie-method-differs", None, {"expected": exp["method"], "got": m["method"]}))
     elif not m["method_is_alpha"]:
         viol.append(("httpie-method-taken-for-url", "httpie-method-not-alphabetic-taken-for-url", {"method": m["method"]}))
-    if m["url"] != exp["url"]:
-        viol.append(("httpie-url-differs", classify_url(sp), {"expected": exp["url"], "got": m["url"]}))
-    want = []
-    for n, v in ([("Host", sp["host_header"])] if sp["host_header"] is not None else []) + expected_header_list(sp, exp):
-        if n == "Host" and v == sp["netloc"] and sp["host_header"] is not None:
-            continue
-        want.append((n, v.strip()))
+    if m["url"] not in acceptable_urls(sp):
+        viol.append(("httpie-url-differs", classify_url(sp), {"expected": acceptable_urls(sp), "got": m["url"], "host_header": sp["host_header"], "request_port": sp["port"]}))
+    want = [(n, v.strip()) for n, v in expected_header_list(sp, exp)]
     got = []
-    host_seen = False
+    got_host = None
     for n, v in m["headers"]:
         if n.lower() == "content-length":
             continue
-        if n.lower() == "host" and strip_ows(v) == sp["netloc"] and not host_seen:
-            host_seen = True
+        if n.lower() == "host" and got_host is None:
+            got_host = v
             continue
         got.append((n, v.strip()))
+    if got_host is None:
+        mm = re.match(r"^[a-z]+://([^/?#]*)", m["url"])
+        got_host = mm.group(1) if mm else None
+    eff_host = sp["host_header"] if sp["host_header"] is not None else sp["netloc"]
+    if got_host is not None and not same_host_header(sp, eff_host, got_host):
+        viol.append(("httpie-host-differs", classify_url(sp), {"expected": eff_host, "got": got_host}))
     if sorted(want) != sorted(got):
         missing = [h for h in want if h not in got]
         extra = [h for h in got if h not in want]
@@ -887,7 +943,7 @@ def run(ctx):
                 specials = tuple(sorted({("empty" if strip_ows(v) == "" else "ae" if n.lower() == "accept-encoding" else "at" if n.startswith("@") else "") for n, v in sp["headers"]} - {""}))
                 nontrivial = bool(feats["m"] or feats["p"] or feats["h"] or sp["body_kind"] not in ("none",))
                 union = tuple(sorted(set(feats["m"]) | set(feats["p"]) | set(feats["h"])))
-                sig = (form, bool(feats["m"]), union, sp["body_kind"], specials)
+                sig = (form, bool(feats["m"]), union, sp["body_kind"], specials, sp["hh_form"], sp["port"] == default_port(sp))
                 ctx.case(sig, nontrivial=nontrivial, sample={"form": form, "cmd": short(cmds.get(kind) or "", 400), "method": sp["method"], "path": sp["path"], "body_kind": sp["body_kind"]})
     finally:
         if ch is not None:
